@@ -29,7 +29,7 @@ ASSUMPTIONS = ["valid URL = RFC 3986 ASCII syntax, http/https, no userinfo, port
                "checked for idempotence)", "Python's idna codec and ipaddress module normalise hosts for comparison"]
 LEVEL_TEXT = "randomised search over URL components and edit sequences against an independent URL/authority parser"
 LEVEL_NOTE = "trusts stdlib idna/ipaddress for host equivalence"
-QUICK_N, THOROUGH_N = 400_000, 5_000_000
+QUICK_N, THOROUGH_N = 200_000, 5_000_000
 
 # ------------------------------------------------------------------ generator (seeded PRNG, see lib/dmgen.py)
 _alnum = "abcdefghijklmnopqrstuvwxyzABCDEFGHIJKLMNOPQRSTUVWXYZ0123456789"
